@@ -73,7 +73,7 @@ def run_step(ctx, kernel, u, logl0, logl_prop, beta, ms, sigma, draws, periodic,
     return out, cb, stub
 
 
-def make_kernel(kernel, d, bkind, beta, nu=None, wraps=1):
+def make_kernel(kernel, d, bkind, beta, nu=None, wraps=1, skip_ratio=False):
     """bkind in interior|hard|periodic|reflective (coordinate 0)."""
     beta = Fraction(beta)
     D = beta.denominator
@@ -106,6 +106,9 @@ def make_kernel(kernel, d, bkind, beta, nu=None, wraps=1):
         except BoundExceeded as e:
             if "integer part" in str(e):
                 raise  # declared wrap-count cut
+            if "draw order" in str(e):
+                ctx.fail("proposal-consumes-gamma-then-normal-draws", str(e))
+                return None
             # the code asked for a second proposal draw: the first proposal fell outside a hard bound and was re-drawn
             if bkind == "interior":
                 return None  # interior obligation: moves that stay inside the cube only (stated cut)
@@ -186,19 +189,21 @@ def make_kernel(kernel, d, bkind, beta, nu=None, wraps=1):
             # exponent of p(g|u')phi(z') / p(g|u)phi(z):  -g(1/th' - 1/th) - (|z'|^2-|z|^2)/2  must vanish (energy identity)
             energy = g * (1 / th_r - 1 / th_f) + (nz(zc) - nz(z)) / 2
             ctx.check("energy-identity(gamma*normal densities balance)", eq(energy, 0))
-            ratio = ratio * (th_f / th_r) ** int(kshape)
+            if not skip_ratio:
+                ratio = ratio * (th_f / th_r) ** int(kshape)
         else:
             ctx.check("normal-density-of-the-witness-equals-forward", eq(nz(zc), nz(z)))
-        ctx.check("acceptance-probability==min(1,joint-density-ratio)",
-                  z3.Or(z3.And(le(ratio, 1), eq(alpha, ratio)), z3.And(le(1, ratio), eq(alpha, 1))))
-        ctx.check("accept-iff-urand<alpha", ((r1 < alpha).z) == z3.BoolVal(bool(accepted)))
+        if not skip_ratio:
+            ctx.check("acceptance-probability==min(1,joint-density-ratio)",
+                      z3.Or(z3.And(le(ratio, 1), eq(alpha, ratio)), z3.And(le(1, ratio), eq(alpha, 1))))
+            ctx.check("accept-iff-urand<alpha", ((r1 < alpha).z) == z3.BoolVal(bool(accepted)))
         # unit Jacobian: the forward map (u,z)->(u',z') is affine; for d=1 decide |det| == 1 through finite differences on the real code
         return None
 
     def replay(m, label, v):
         return replay_kernel(kernel, d, bkind, float(beta), nu, m, label)
 
-    name = f"{kernel}-{bkind}-d{d}-beta{beta}"
+    name = f"{kernel}-{bkind}-d{d}-beta{beta}" + (f"-nu{int(nu)}" if skip_ratio else "")
     return Obligation(name, harness, replay=replay,
                       encodes=[mcmc.parallel_mcmc, mcmc.BaseMCMCRunner.run, mcmc.TPCNRunner._propose, mcmc.TPCNRunner._compute_acceptance_factor,
                                mcmc.RWMRunner._propose, mcmc.apply_boundary_conditions, mcmc.check_bounds],
@@ -208,6 +213,146 @@ def make_kernel(kernel, d, bkind, beta, nu=None, wraps=1):
                              "_adapt_sigma -> no-op, _initialize_sigmas -> symbolic sigma", "np.sqrt -> fresh r>=0 with r*r==x (cached per radicand)"],
                       theory="QF_NRA", timeout_ms=8000, max_paths=4000, allow_domain="division by zero paths are outside the declared positive domains",
                       allow_bound=(f"unwrapped proposals with integer part outside [-{wraps},{wraps}] are cut" if bkind in ("periodic", "reflective") else None))
+
+
+def make_propose_only(nu, d=1):
+    """tpCN proposal alone (TPCNRunner._propose under injected randomness) for a large degrees-of-freedom value, where the
+    Student-t power of the acceptance ratio is out of reach: the proposal must still be the scale-mixture draw
+    (gamma then normal), with shape (d+nu)/2 and scale 2/(nu+delta), and satisfy involution + energy identity."""
+    kshape = Fraction(d + int(nu), 2)
+
+    def propose(ctx, u, ms, sigma, g, z):
+        calls = []
+
+        def provider(kind, rec):
+            calls.append(rec)
+            if kind == "gamma":
+                return g
+            if kind == "randn":
+                return sarr(z)
+            raise BoundExceeded(f"draw order: unexpected {kind}")
+        stub = RandomStub(provider, max_calls=2)
+        proxy = NpProxy(random=stub, exact_log=True, object_constructors=True)
+        sig = lambda self: sarr([sigma])
+        with patched(mcmc, np=proxy), patched_attr(mcmc.TPCNRunner, _initialize_sigmas=sig):
+            runner = mcmc.TPCNRunner(sarr([u]), sarr([u]), sarr([SymReal.const(0)]), None, np.zeros(1, dtype=int), 1.0, ms,
+                                     lambda x: (None, None), lambda q: q, None, 1, 1, None, None, False)
+            up = runner._propose(0)
+        return [v for v in np.asarray(up, dtype=object).reshape(-1)], calls
+
+    def harness(ctx: PathCtx):
+        u = [real(ctx, f"u{j}", lo=0, hi=1) for j in range(d)]
+        ms = sym_mode_stats(ctx, d, 1, nu=float(nu))
+        sigma = real(ctx, "sigma", lo=0, lo_strict=True, hi=1, hi_strict=True)
+        z = [real(ctx, f"z{j}") for j in range(d)]
+        g = real(ctx, "g", lo=0, lo_strict=True)
+        up, calls = propose(ctx, u, ms, sigma, g, z)
+        kinds = [c["kind"] for c in calls]
+        ctx.check("proposal-consumes-gamma-then-normal-draws", z3.BoolVal(kinds == ["gamma", "randn"]), detail=kinds)
+        if kinds != ["gamma", "randn"]:
+            return None
+        L, mu = ms.chol_covariances[0], ms.means[0]
+        a = (1.0 - sigma ** 2.0).sqrt()
+        rs = (1.0 / g).sqrt()
+        w = [(u[0] - mu[0]) / L[0][0]]
+        zrev = [sigma / rs * w[0] - a * z[0]]
+        upp, calls2 = propose(ctx, up, ms, sigma, g, zrev)
+        ctx.check("reverse-move-with-the-witness-draws-returns-to-the-start(involution)", eq(upp[0], u[0]))
+        gf, gr = calls[0], calls2[0]
+        ctx.check("gamma-shape-is-(d+nu)/2-in-both-directions", z3.And(eq(gf["shape"], kshape), eq(gr["shape"], kshape)))
+        th_f, th_r = SymReal.lift(scalar(gf["scale"])), SymReal.lift(scalar(gr["scale"]))
+        dlt = w[0] * w[0]
+        ctx.check("gamma-scale-is-2/(nu+delta)", eq(th_f * (dlt + nu), 2))
+        energy = g * (1 / th_r - 1 / th_f) + (zrev[0] * zrev[0] - z[0] * z[0]) / 2
+        ctx.check("energy-identity(gamma*normal densities balance)", eq(energy, 0))
+        return None
+
+    def replay(m, label, v):
+        from vf.engine.util import scripted_random
+        vals = {k: float(x) for k, x in m.items() if not isinstance(x, (bool, str))}
+        u0, mu0, l00, sg, g, z0 = vals.get("u0", 0.3), vals.get("mu0_0", 0.5), vals.get("L0_00", 0.2), vals.get("sigma", 0.5), vals.get("g", 1.3), vals.get("z0", 0.4)
+        ms = ModeStatistics(np.array([[mu0]]), np.array([[[l00 * l00]]]), np.array([float(nu)]))
+        runner = mcmc.TPCNRunner(np.array([[u0]]), np.array([[u0]]), np.zeros(1), None, np.zeros(1, dtype=int), 1.0, ms, lambda x: (np.zeros(1), None),
+                                 lambda q: q, None, 1, 1, None, None, False)
+        runner.sigmas = np.array([sg])
+        seen = []
+
+        def gamma_spy(shape=None, scale=1.0, size=None):
+            seen.append(("gamma", float(shape), float(scale)))
+            return g
+
+        def randn_spy(*a):
+            seen.append(("randn",))
+            return np.array([z0])
+        with scripted_random(gamma=gamma_spy, randn=randn_spy):
+            up = runner._propose(0)
+        dlt = ((u0 - mu0) / l00) ** 2
+        expect = mu0 + math.sqrt(1 - sg * sg) * (u0 - mu0) + sg * math.sqrt(1.0 / g) * l00 * z0
+        bad = [s_[0] for s_ in seen] != ["gamma", "randn"] or abs(seen[0][1] - (1 + nu) / 2) > 1e-9 or abs(seen[0][2] - 2.0 / (nu + dlt)) > 1e-12 \
+            or abs(float(up[0]) - expect) > 1e-9
+        return {"reproduced": bool(bad), "signature": f"tpcn:proposal-not-the-scale-mixture:nu={nu}", "payload": {"draws": seen, "proposal": float(up[0]), "expected": expect},
+                "what": f"TPCNRunner._propose with nu={nu}: draws consumed {seen}, proposal {float(up[0]):.6g} vs scale-mixture pCN value {expect:.6g} for gamma draw {g}"}
+
+    return Obligation(f"tpcn-proposal-nu{int(nu)}", harness, replay=replay, encodes=[mcmc.TPCNRunner._propose],
+                      bounds=f"d=1, nu={nu} (acceptance power (d+nu)/2 = {kshape} is not encoded: proposal obligations only)", theory="QF_NRA", timeout_ms=8000,
+                      stubs=["np.random.gamma/randn -> symbolic draws", "_initialize_sigmas -> symbolic sigma"],
+                      allow_domain="division by zero paths are outside the declared positive domains")
+
+
+def make_modestats(d):
+    """the real ModeStatistics.__init__: the precomputed inverse and Cholesky factor must belong to the same scale matrix
+    (the proposal noise uses the factor, the gamma scale and the Student-t correction use the inverse)."""
+    import tempest.modes as modes_mod
+    from vf.engine.arr import inv_small
+
+    def chol_small(M):
+        M = np.asarray(M, dtype=object)
+        if M.ndim == 3:
+            return np.stack([chol_small(M[i]) for i in range(M.shape[0])]).view(type(sarr([0])))
+        if M.shape[0] == 1:
+            return sarr([[SymReal.lift(M[0, 0]).sqrt()]])
+        a = SymReal.lift(M[0, 0]).sqrt()
+        b = SymReal.lift(M[1, 0]) / a
+        e = (SymReal.lift(M[1, 1]) - b * b).sqrt()
+        return sarr([[a, SymReal.const(0)], [b, e]])
+
+    def harness(ctx: PathCtx):
+        if d == 1:
+            c = real(ctx, "c00", lo=0, lo_strict=True)
+            C = [[c]]
+        else:
+            a, b, e = real(ctx, "c00", lo=0, lo_strict=True), real(ctx, "c10"), real(ctx, "c11", lo=0, lo_strict=True)
+            ctx.assume((a * e - b * b).n > 0)
+            C = [[a, b], [b, e]]
+        la = type("LA", (), {"inv": staticmethod(inv_small), "cholesky": staticmethod(chol_small), "LinAlgError": np.linalg.LinAlgError})()
+        with patched(modes_mod, np=NpProxy(object_constructors=True, overrides={"linalg": la})):
+            ms = ModeStatistics(sarr([[real(ctx, f"m{j}") for j in range(d)]]), sarr([C]), np.array([3.0]))
+        Lc, Ic = ms.chol_covariances[0], ms.inv_covariances[0]
+        conds = []
+        for i in range(d):
+            for j in range(d):
+                llt = sum([Lc[i][k] * Lc[j][k] for k in range(1, d)], Lc[i][0] * Lc[j][0])
+                conds.append(eq(llt, C[i][j]))
+                ic = sum([Ic[i][k] * C[k][j] for k in range(1, d)], Ic[i][0] * C[0][j])
+                conds.append(eq(ic, 1 if i == j else 0))
+        ctx.check("cholesky-factor-and-inverse-belong-to-the-given-scale-matrix", z3.And(*conds))
+        return None
+
+    def replay(m, label, v):
+        rng = np.random.RandomState(0)
+        worst = 0.0
+        for cond_target in (1.0, 1e4, 1e8, 1e10):
+            ev = np.array([1.0, 1.0 / cond_target])[:d] if d > 1 else np.array([float(m.get("c00", 1.0))])
+            Q = np.linalg.qr(rng.randn(d, d))[0]
+            C = (Q * ev) @ Q.T
+            ms = ModeStatistics(np.zeros((1, d)), C.reshape(1, d, d), np.array([3.0]))
+            L = ms.chol_covariances[0]
+            worst = max(worst, float(np.max(np.abs(ms.inv_covariances[0] @ (L @ L.T) - np.eye(d)))))
+        return {"reproduced": worst > 1e-4, "signature": "ModeStatistics:factor-and-inverse-inconsistent", "payload": {"max_abs_residual": worst},
+                "what": f"ModeStatistics: inv_covariances @ (chol chol^T) differs from the identity by {worst:.3g} for scale matrices with condition number up to 1e10"}
+
+    return Obligation(f"modestats-consistent-d{d}", harness, replay=replay, encodes=[ModeStatistics.__init__],
+                      bounds=f"d={d}, symbolic SPD scale matrix", stubs=["np.linalg.inv/cholesky -> closed forms (d<=2)"], theory="QF_NRA", timeout_ms=8000)
 
 
 # ---------------------------------------------------------------------- concrete replays
@@ -390,7 +535,8 @@ def replay_interior(kernel, beta, nu, m, label):
 def obligations(tier):
     H = Fraction(1, 2)
     obs = [make_kernel("tpcn", 1, "interior", 1), make_kernel("tpcn", 1, "interior", H), make_kernel("tpcn", 1, "hard", H), make_kernel("rwm", 1, "hard", 1),
-           make_kernel("rwm", 1, "periodic", H), make_kernel("rwm", 1, "reflective", 1), make_kernel("tpcn", 1, "periodic", 1)]
+           make_kernel("rwm", 1, "periodic", H), make_kernel("rwm", 1, "reflective", 1), make_kernel("tpcn", 1, "periodic", 1),
+           make_propose_only(1501), make_modestats(1), make_modestats(2)]
     if tier == "thorough":
         obs += [make_kernel("tpcn", 1, "interior", H, nu=5.0), make_kernel("tpcn", 1, "reflective", 1), make_kernel("tpcn", 2, "interior", 1),
                 make_kernel("rwm", 2, "hard", 1), make_kernel("rwm", 2, "periodic", 1)]
